@@ -103,6 +103,8 @@ def r07_6(prog: Program, rep: Report):
         return T.rewrite(term, lambda s: ("param", "U") if T.is_call_to(s, f"{C.INSP}.unwrap") else None)
 
     with_members = [a for a in C.catalogue() if a.subscripted or a.flags]
+    # user classes that extend a standard collection and declare fields of their own (`class Scope(dict): parent: Optional[Scope]`)
+    with_members += [C.TypeArg(b, False, (), frozenset({"annotated"})) for b in ("builtins.dict", "builtins.list", "collections.OrderedDict", "collections.deque")]
     bad = []
     decided = 0
     for a in with_members:
